@@ -104,7 +104,8 @@ func (s *State) parseIPTables(lines []string) tables {
 	appendRule := false
 	for _, line := range lines {
 		line = strings.TrimSpace(line)
-		if line == "" {
+		// Ignore empty lines and comment lines in output of iptables-save.
+		if line == "" || line[0] == '#' {
 			continue
 		}
 		switch line[0] {
